@@ -156,6 +156,10 @@ static int32_t commit(struct jls_core_ts_s * self, int level, int mode) {
     struct jls_index_s * index_up = self->index[level + 1];
     struct jls_payload_header_s * summary_header_up = self->summary[level + 1];
     if (index_up) {
+        if (index_up->header.entry_count >= self->decimate_factor) {
+            JLS_LOGE("index level %d is full: an earlier commit failed", level + 1);
+            return JLS_ERROR_TOO_BIG;
+        }
         struct jls_index_entry_s * index_up_entry = &index_up->entries[index_up->header.entry_count++];
         index_up_entry->timestamp = index->entries[0].timestamp;
         index_up_entry->offset = offset;
@@ -166,6 +170,9 @@ static int32_t commit(struct jls_core_ts_s * self, int level, int mode) {
         p_start = (uint8_t *) summary;
         if (mode != COMMIT_MODE_CLOSE) {
             struct jls_annotation_summary_s *summary_up = (struct jls_annotation_summary_s *) summary_header_up;
+            if (summary_up->header.entry_count >= self->decimate_factor) {
+                return JLS_ERROR_TOO_BIG;
+            }
             summary_up->entries[summary_up->header.entry_count++] = summary->entries[0];
         }
     } else if (self->track_type == JLS_TRACK_TYPE_UTC) {
@@ -174,6 +181,9 @@ static int32_t commit(struct jls_core_ts_s * self, int level, int mode) {
         p_start = (uint8_t *) summary;
         if (mode != COMMIT_MODE_CLOSE) {
             struct jls_utc_summary_s *summary_up = (struct jls_utc_summary_s *) summary_header_up;
+            if (summary_up->header.entry_count >= self->decimate_factor) {
+                return JLS_ERROR_TOO_BIG;
+            }
             summary_up->entries[summary_up->header.entry_count++] = summary->entries[0];
         }
     }
@@ -214,6 +224,10 @@ int32_t jls_wr_ts_anno(struct jls_core_ts_s * self, int64_t timestamp, int64_t o
     struct jls_index_s * index = self->index[1];
     struct jls_annotation_summary_s * summary = (struct jls_annotation_summary_s *) self->summary[1];
 
+    if ((index->header.entry_count >= self->decimate_factor) || (summary->header.entry_count >= self->decimate_factor)) {
+        JLS_LOGE("annotation index is full: an earlier commit failed");
+        return JLS_ERROR_TOO_BIG;
+    }
     struct jls_index_entry_s * index_entry = &index->entries[index->header.entry_count++];
     index_entry->timestamp = timestamp;
     index_entry->offset = offset;
@@ -242,6 +256,10 @@ int32_t jls_wr_ts_utc(struct jls_core_ts_s * self, int64_t sample_id, int64_t of
     struct jls_index_s * index = self->index[1];
     struct jls_utc_summary_s * summary = (struct jls_utc_summary_s *) self->summary[1];
 
+    if ((index->header.entry_count >= self->decimate_factor) || (summary->header.entry_count >= self->decimate_factor)) {
+        JLS_LOGE("utc index is full: an earlier commit failed");
+        return JLS_ERROR_TOO_BIG;
+    }
     struct jls_index_entry_s * index_entry = &index->entries[index->header.entry_count++];
     index_entry->timestamp = sample_id;
     index_entry->offset = offset;
